@@ -458,6 +458,8 @@ def shard(s, ns, tier, seed):
             part.n += 1
             if r is None:
                 part.keys.add(core.h64((line, tuple(sorted(regs.items())), tuple(sorted(fl.items())), str(memval))))
+                if len(part.samples) < 2:
+                    part.samples.append({'form': line, 'bytes': b.hex(), 'regs': {k_: hex(v_) for k_, v_ in regs.items()}, 'flags': fl, 'cpu_eflags': hex(res['eflags'])})
                 part.outcomes.add(core.h64((line, res['eflags'] & cpu.STATUS_MASK)))
             elif r == 'fault':
                 part.skips['processor faults (excluded)'] += 1
@@ -477,7 +479,6 @@ def run(tier, seed):
     irsem.selfcheck()
     F = forms(tier)
     part = core.run_sharded(shard, (tier, seed), nshards=core.NPROC * 6)
-    part.samples = [{'form': 'adc eax, ebx', 'state': {'eax': '0x7fffffff', 'ebx': '0x80000000', 'flags cf pf af zf nf of': '100000'}}] + part.samples[:2]
     rule = ('case = (instruction form, initial state): %d forms of the integer core (ALU, inc/dec/neg/not, shifts/rotates with counts 0,1,2,7,8,9,15,16,17,31,32,33,255 '
             'and cl, shld/shrd, mul/imul(1-3 operands)/div/idiv, bt*/bsf/bsr, movzx/movsx, mov/lea/xchg/xadd/cmpxchg/bswap, cbw..cdq, flag instructions, '
             'setcc/cmovcc/jcc x 16, loop*/jecxz, jmp/call/ret direct and indirect, push/pop/pushfd/popfd/pushad/popad/enter/leave, string instructions '
